@@ -199,13 +199,17 @@ fn run_check(id: &str, thorough: bool) -> i32 {
     results.sort_by(|a, b| a.name.cmp(&b.name));
 
     // machinery errors are never verdicts
-    let errors: Vec<String> = results.iter().filter_map(|r| r.error.as_ref().map(|e| format!("{}: {}", r.name, e))).collect();
+    let errors: Vec<String> = results.iter().filter(|r| r.name != "E/conformance").filter_map(|r| r.error.as_ref().map(|e| format!("{}: {}", r.name, e))).collect();
     if !errors.is_empty() {
         for e in &errors {
             eprintln!("MACHINERY ERROR {}", e);
         }
         return 2;
     }
+    // The binding check (the real binary did not behave as the in-process run on some history) is a machinery
+    // error when the exploration itself is silent: then nothing vouches for what it explored. When the exploration
+    // has a violation to show, that violation is replayable on the real code in-process and stands on its own.
+    let conformance_error: Option<String> = results.iter().filter(|r| r.name == "E/conformance").find_map(|r| r.error.clone());
 
     // merge findings for this property by signature (cheapest first)
     let mut merged: BTreeMap<String, (&FoundAny, String)> = BTreeMap::new();
@@ -250,6 +254,13 @@ fn run_check(id: &str, thorough: bool) -> i32 {
         let _ = std::fs::write(&path, serde_json::to_string_pretty(&doc).unwrap());
         viol_lines.push(format!("VIOLATION property={} replay={}", id, path));
         eprintln!("  {} [{}] {} :: {}", sig, scen_name, f.cost, trunc(&f.violation.detail, 300));
+    }
+    if let Some(e) = &conformance_error {
+        if violations == 0 {
+            eprintln!("MACHINERY ERROR E/conformance: {}", e);
+            return 2;
+        }
+        eprintln!("NOTE: the real binary also departs from the in-process run on some history (E/conformance): {}", trunc(e, 400));
     }
 
     // evidence
